@@ -128,7 +128,7 @@ class RankSim:
         self.rank = rank
         self.g = cfg.grid
         self.ev: List[Dict[str, Any]] = []
-        self.corr = rng.choice([-1, 1, 5, 100, 278204204])    # -1: the first correlation id of the rank may be 0
+        self.corr = rng.choice([-1, 1, 5, 100, 278204204, 3000000000])    # -1: the first correlation id of the rank may be 0
         if cfg.corr_start is not None:
             self.corr = cfg.corr_start
         self.zero_pending = cfg.corr_start == -1     # the first launch of the rank carries correlation id 0
